@@ -21,6 +21,26 @@ COMMON_ASSUMPTIONS = [
     "little-endian x86-64 build, profile overflow-checks off (as the crate configures it)",
 ]
 
+import json as _json, os as _os
+_HERE = _os.path.dirname(_os.path.abspath(__file__))
+_TABLE_MAP = _json.load(open(_os.path.join(_HERE, "table_map.json")))
+_FACT_DIR = _os.path.join(_os.path.dirname(_HERE), "lean", "DecProofs", "TableFacts")
+_MECH = {"BID_TEN2MK128", "BID_SHIFTRIGHT128", "BID_RECIPROCALS10_128", "BID_RECIP_SCALE", "BID_KX64", "BID_KX128", "BID_KX192", "BID_KX256"}
+
+def tables_for(pid):
+    """Table-fact modules attached to a property: the tables reachable (crude call graph, bin/table_map.json) from the
+    operation files the property is anchored in.  Tables without a closed-form theorem are listed as unverified."""
+    mods, unverified = [], []
+    ts = _TABLE_MAP.get(pid, [])
+    for t in ts:
+        if _os.path.exists(_os.path.join(_FACT_DIR, "F_%s.lean" % t)):
+            mods.append("DecProofs.TableFacts.F_%s" % t)
+        elif t not in _MECH:
+            unverified.append(t)
+    if any(t in _MECH for t in ts):
+        mods.append("DecProofs.TableFacts.Mechanisms")
+    return mods, unverified
+
 def P(families, modules, quick=300000, thorough=12000000, tables=None, static=None, extra_corpus=None, assumptions=None):
     return {"families": families, "theorem_modules": modules, "quick_count": quick, "thorough_count": thorough,
             "table_modules": tables or [], "static_modules": static or [], "extra_corpus": extra_corpus or [],
@@ -29,9 +49,9 @@ def P(families, modules, quick=300000, thorough=12000000, tables=None, static=No
 PROPS = {
     "C01": P(["C01"], ["DecProofs.Properties.C01"], quick=400000),
     "C02": P(["C02"], ["DecProofs.Properties.C02"], quick=400000),
-    "C03": P(["C03"], ["DecProofs.Properties.C03"]),
-    "C04": P(["C04"], ["DecProofs.Properties.C04"], quick=400000),
-    "C05": P(["C05"], ["DecProofs.Properties.C05"]),
+    "C03": P(["C03"], ["DecProofs.Properties.C03", "DecProofs.Core.Cmp", "DecProofs.Properties.C03Order"]),
+    "C04": P(["C04"], ["DecProofs.Properties.C04", "DecProofs.Core.DigitStr", "DecProofs.Properties.C04Grammar"], quick=400000),
+    "C05": P(["C05"], ["DecProofs.Properties.C05", "DecProofs.Core.DigitStr", "DecProofs.Properties.C05RoundTrip"]),
     "C06": P(["C06"], ["DecProofs.Properties.C06"]),
     "C07": P(["C07"], ["DecProofs.Properties.C07"]),
     "C08": P(["C08"], ["DecProofs.Properties.C08"]),
@@ -39,13 +59,18 @@ PROPS = {
     "C10": P(["C10"], ["DecProofs.Properties.C10"]),
     "C11": P(["C11"], ["DecProofs.Properties.C11"]),
     "C12": P(["C12"], ["DecProofs.Properties.C12"]),
-    "C13": P(["C13"], ["DecProofs.Properties.C13"]),
+    "C13": P(["C13"], ["DecProofs.Properties.C13", "DecProofs.Core.Codec", "DecProofs.Properties.C13Codec"]),
     "C14": P(["C14"], ["DecProofs.Properties.C14"], static=["DecProofs.Static.FlagAccess"]),
     "C15": P(["C15"], ["DecProofs.Properties.C15"], quick=400000, static=["DecProofs.Static.Inventory"],
              extra_corpus=["C01", "C02", "C04"]),
-    "C16": P(["C16"], ["DecProofs.Properties.C16"]),
+    "C16": P(["C16"], ["DecProofs.Properties.C16", "DecProofs.Core.Cmp", "DecProofs.Properties.C16Order"]),
     "C17": P(["C17"], ["DecProofs.Properties.C17"]),
-    "C18": P(["C18"], ["DecProofs.Properties.C18"]),
-    "C19": P(["C19"], ["DecProofs.Properties.C19"]),
-    "C20": P(["C20"], ["DecProofs.Properties.C20"]),
+    "C18": P(["C18"], ["DecProofs.Properties.C18", "DecProofs.Core.Cmp", "DecProofs.Properties.C18Order"]),
+    "C19": P(["C19"], ["DecProofs.Properties.C19", "DecProofs.Core.Codec", "DecProofs.Properties.C19RoundTrip"]),
+    "C20": P(["C20"], ["DecProofs.Properties.C20", "DecProofs.Core.Cmp", "DecProofs.Properties.C20Order"]),
 }
+
+for _pid, _p in PROPS.items():
+    _mods, _unv = tables_for(_pid)
+    _p["table_modules"] = _mods
+    _p["unverified_tables"] = _unv
